@@ -86,11 +86,19 @@ class Notification:
 
     def __awake_next__(self) -> Tuple[Coroutine, Interrupt]:
         """Awake the oldest waiter"""
-        try:
-            waiter, interrupt = self._waiting.pop(0)
-        except IndexError:
-            raise NoSubscribers
-        else:
+        while True:
+            try:
+                waiter, interrupt = self._waiting.pop(0)
+            except IndexError:
+                raise NoSubscribers
+            if getattr(waiter, 'cr_frame', True) is None:
+                # The waiter has ended without unsubscribing: it was closed while
+                # suspended in an async generator that is still referenced, which
+                # Python unwinds only when it is collected. It cannot be woken;
+                # its belated unsubscribing finds the wake-up spent.
+                interrupt.scheduled = True
+                interrupt.revoke()
+                continue
             __USIM_STATE__.loop.schedule(waiter, signal=interrupt)
             return waiter, interrupt
 
